@@ -269,3 +269,8 @@ def run_case(ctx, case):
         if op in ("refresh", "toggle") and (online or supported):
             ctx.violation("online-after-only-corrupted", f"refresh that saw only a corrupted {kind} frame reports online={online} supported={supported}",
                           one, {"frame": cf})
+        if op == "caps" and (online or supported):
+            # the capabilities query follows a refresh that saw only the corrupted frame (offline, unsupported): answered by the
+            # same corrupted frame it must leave that exactly as it was
+            ctx.violation("online-after-only-corrupted", f"get_capabilities() answered only by a corrupted {kind} frame changed online/supported to "
+                          f"{online}/{supported}", one, {"frame": cf})
